@@ -1,4 +1,4 @@
-import GdVerif.Lemmas.ValveKind
+import GdVerif.Lemmas.ValveWhole
 import GdVerif.Lemmas.Valve
 import GdVerif.Spec.Battalion
 /-
@@ -214,5 +214,36 @@ theorem overrides_expected (cfg : Config) (st : State) (h : Battalion.Spec.wf cf
   · have hne : (489940 == st.info.appid) = false := by
       simp only [beq_eq_false_iff_ne, ne_eq]; exact fun h => happ h.symm
     simp [happ, hne, bind, Res.bind]
+
+/-- the outcome of `query` in terms of the Valve query's outcome -/
+theorem query_fst (ext : Ext) (port : Nat) (w : Net) :
+    (query ext port w).1
+      = ((Valve.query ext port ENGINE Gather.default 0 w).1 >>= applyOverrides >>= fun r => pure (Games.gameView r)) := by
+  unfold query
+  rw [Q.bind_apply]
+  cases hq : Valve.query ext port ENGINE Gather.default 0 w with
+  | mk res w' =>
+    cases res with
+    | ok r =>
+      simp only
+      rw [Q.bind_apply]
+      cases ha : applyOverrides r <;> simp [Q.lift, ha, bind, Res.bind]
+    | err k => rfl
+    | crash => rfl
+
+/-- the whole query against a conforming Battalion 1944 server that answers each request with one datagram -/
+theorem query_single (ext : Ext) (port : Nat) (cfg : Config) (st : State) (h : Battalion.Spec.wf cfg st = true)
+    (hl1 : (reply 0x49 (encSourceInfo cfg.upper st.info)).length ≤ PACKET_SIZE)
+    (hl2 : (reply 0x44 (encPlayers st.players)).length ≤ PACKET_SIZE)
+    (hl3 : (reply 0x45 (encRules st.rules)).length ≤ PACKET_SIZE) :
+    (query ext port (Net.init [.opened (singleScript cfg.upper st)] [])).1 = Battalion.Spec.expected st := by
+  have hwf := h
+  simp only [Battalion.Spec.wf, Valve.Spec.wf, Battalion.Spec.batConfig, Battalion.Spec.batEngine, Engine.new,
+    Bool.and_eq_true, decide_eq_true_eq, List.all_eq_true] at h
+  obtain ⟨⟨⟨⟨⟨⟨⟨hinfo, hpn⟩, hpl⟩, hrn⟩, hrl⟩, hrd⟩, _⟩, _⟩ := h
+  have hq := Valve.query_single ext port ENGINE (by decide) 0 cfg.upper st hinfo hpn
+    (fun p hp => by simpa [ENGINE, Engine.new] using hpl p hp) hrn (fun r hr => by simpa using hrl r hr) hrd hl1 hl2 hl3
+  rw [query_fst, hq, ← overrides_expected cfg st hwf, expected_default (Battalion.Spec.batConfig cfg) st rfl]
+  rfl
 
 end Gd.Battalion
